@@ -181,7 +181,7 @@ def main(replay=None):
             distinct.add(hash(tuple(m[1] for m in r["model"])))
         if len(samples) < 5 and (c.kind.startswith("corpus") and len(samples) < 2 or c.kind == "map" and len(samples) >= 2):
             samples.append({"kind": c.kind, "sqf": D.sqf_of(r)[:14]})
-        bo = D.check_oracle(r)
+        bo = D.check_oracle(r) + (D.equal_keys_agree(r) if c.kind in ("nestedkey", "replay") else [])
         cm = D.compare(r, tab, stack)
         if not (bo or cm):
             continue
